@@ -1,6 +1,7 @@
 ------------------------------ MODULE MonAsync ------------------------------
 (* C20 judged on the events recorded from the real couchbase.AsyncOp driven through the wrapper pattern:
-   Submit{ok}, Served{outcome}, Deadline, CallbackDone, Return{result}, Quiesced *)
+   Submit{ok}, Served{outcome}, Deadline, CallbackDone, Return{result}, Quiesced; and from the real wrappers of client.go /
+   doc_op.go over real gocbcore agents against the simulated node (Submit, Served, Return, QuiescedWire) *)
 EXTENDS Integers, Sequences, FiniteSets, TLC, Json
 VARIABLES i, run, m, bad
 Trace == ndJsonDeserialize("mon.ndjson")
@@ -21,6 +22,8 @@ Apply(x, e) ==
              x.served = "none" \/ x.cbdone, "the completion callback blocked"),
            ~(x.ret = "timeout" /\ x.served \in {"none", "cancel"}) \/ x.cancel,
            "the deadline passed on a silent server but the pending operation was not cancelled")
+    \* a real wrapper over a real agent against the simulated node: the call has returned (by its own deadline at the latest)
+    [] e.ev = "QuiescedWire" -> V(x, x.ret # "none", "the call did not return by its deadline")
     [] OTHER -> x
 MInit == i = 1 /\ run = 0 /\ m = MonInit /\ bad = {}
 MNext == /\ i <= Len(Trace) /\ i' = i + 1
